@@ -5,7 +5,7 @@ from .. import ief, triage, mirror
 from ..flow import GuardMap
 from ..model import AnalysisError, norm
 from .c04 import prop
-from .common import mirror_rule, dep_closure, names_in
+from .common import mirror_rule, dep_closure, names_in, nocache_rule, forward_rule
 
 ROOTS = ['ReferenceTest.assertDataFramesEqual', 'ReferenceTest.assertDataFrameCorrect',
          'ReferenceTest.assertOnDiskDataFrameCorrect', 'PandasComparison.check_dataframe']
@@ -32,6 +32,22 @@ def check(run):
     prop(run, p, 'C05', DF_ASSERTS)
     state(run, p, pc)
     ordersrc(run, p, cd)
+    nocache_rule(run, 'C05-NOCACHE', p, ['tdda.referencetest.checkpandas', 'tdda.referencetest.basecomparison'],
+                 'frames handed to a comparison are never memoised: no caching decorator and no class-level container used as a cache in the '
+                 'comparison modules (check_dataframe sorts its inputs in place, so a shared cached frame would change under later checks)')
+    rt = p.cls('ReferenceTest')
+    pairs = [(pc.methods['check_serialized_dataframes'], 'check_serialized_dataframe'),
+             (pc.methods['check_serialized_dataframe'], 'check_dataframe'),
+             (rt.methods['assertDataFrameCorrect'], 'assertDataFramesEqual'),
+             (rt.methods['assertDataFramesEqual'], 'check_dataframe'),
+             (rt.methods['assertOnDiskDataFrameCorrect'], 'check_serialized_dataframe'),
+             (rt.methods['assertOnDiskDataFramesCorrect'], 'check_serialized_dataframes'),
+             (rt.methods['assertCSVFileCorrect'], 'assertOnDiskDataFrameCorrect'),
+             (rt.methods['assertCSVFilesCorrect'], 'assertOnDiskDataFramesCorrect')]
+    n = forward_rule(run, 'C05-FORWARD', p, pairs,
+                     'each entry point that delegates to a sibling comparison forwards every option both of them declare by name '
+                     '(precision, sortby, condition, check_* ...): an option accepted but not passed on is silently ignored')
+    run.floor('C05-FORWARD', n, 6)
 
 
 def rfail(run, p, cd):
